@@ -320,6 +320,7 @@ func (h *Hook) OnQosPublish(cl *mqtt.Client, pk packets.Packet, sent int64, rese
 		T:           storage.InflightKey,
 		Client:      cl.ID,
 		Origin:      pk.Origin,
+		PacketID:    pk.PacketID,
 		FixedHeader: pk.FixedHeader,
 		TopicName:   pk.TopicName,
 		Payload:     pk.Payload,
